@@ -226,7 +226,7 @@ Section Main.
   Proof.
     intros Hg Hl Hl' E.
     assert (E' : f (Z.of_N l + 1) = f (Z.of_N l' + 1)).
-    { rewrite <- (lab_spec _ Hg Hl), <- (lab_spec _ Hg Hl'), E. reflexivity. }
+    { rewrite <- (@lab_spec _ _ Hg Hl), <- (@lab_spec _ _ Hg Hl'), E. reflexivity. }
     apply (f_equal g) in E'. rewrite !(rn_gf Hg) in E'. lia.
   Qed.
 
@@ -242,7 +242,7 @@ Section Main.
     ident (atom_of a' (lab f l)) = ident (atom_of a l).
   Proof.
     intros Hg ND Hl. unfold ident, atom_of. cbn [zn mass rad].
-    rewrite (lab_spec _ Hg Hl), !(find_prop_corr _ _ ND), semeq_zs.
+    rewrite (@lab_spec _ _ Hg Hl), !(find_prop_corr _ _ ND), semeq_zs.
     pose proof (@rn_elem _ _ _ Hg _ Hl) as He. unfold elem_at in He.
     replace (N.to_nat (lab f l)) with (Z.to_nat (f (Z.of_N l + 1) - 1)) by (unfold lab; lia).
     rewrite He. replace (Z.to_nat (Z.of_N l + 1 - 1)) with (N.to_nat l) by lia. reflexivity.
@@ -279,7 +279,7 @@ Section Main.
     split; [apply semeq_noselfloop; exact HL|]. split; [apply (se_nodup HE); exact ND|].
     split; [exact HI'|]. split; [exact Hpos'|].
     assert (Hinj : inj_on (lab f) (labels (sem_mol a))).
-    { intros l l' Hl Hl'. apply (lab_inj _ _ Hg); apply sem_mol_label_range; assumption. }
+    { intros l l' Hl Hl'. apply (@lab_inj _ _ _ Hg); apply sem_mol_label_range; assumption. }
     split; [exact Hinj|]. split.
     - (* atoms *)
       apply NoDup_Permutation.
@@ -292,9 +292,9 @@ Section Main.
       + intros [l' d]. rewrite !in_map_iff. split.
         * intros (x & E & Hx). apply sem_mol_atoms_In in Hx. destruct Hx as (l & Hl & ->).
           exists (atom_of a' (lab f l)). split.
-          -- rewrite (atom_of_ident _ Hg ND Hl). exact E.
+          -- rewrite (@atom_of_ident _ _ Hg ND Hl). exact E.
           -- apply sem_mol_atoms_In. exists (lab f l). split; [|reflexivity].
-             rewrite (lab_spec _ Hg Hl). apply semeq_range, (rn_range Hg), Hl.
+             rewrite (@lab_spec _ _ Hg Hl). apply semeq_range, (rn_range Hg), Hl.
         * intros (x' & E & Hx'). apply sem_mol_atoms_In in Hx'. destruct Hx' as (l0 & Hl0 & ->).
           apply semeq_range in Hl0.
           set (l := Z.to_N (g (Z.of_N l0 + 1) - 1)).
@@ -302,9 +302,9 @@ Section Main.
           assert (El : (Z.of_N l + 1 = g (Z.of_N l0 + 1))%Z) by (unfold l, in_range in *; lia).
           assert (Hl : in_range a (Z.of_N l + 1)) by (rewrite El; exact Hgl).
           assert (Elab : lab f l = l0).
-          { pose proof (lab_spec _ Hg Hl) as H. rewrite El, (rn_fg Hg) in H. lia. }
+          { pose proof (@lab_spec _ _ Hg Hl) as H. rewrite El, (rn_fg Hg) in H. lia. }
           exists (atom_of a l). split.
-          -- change (lbl (atom_of a l)) with l. rewrite <- (atom_of_ident _ Hg ND Hl), Elab. exact E.
+          -- change (lbl (atom_of a l)) with l. rewrite <- (@atom_of_ident _ _ Hg ND Hl), Elab. exact E.
           -- apply sem_mol_atoms_In. exists l. split; [exact Hl | reflexivity].
     - (* bonds *)
       rewrite sem_mol_fbonds, sem_mol_nbonds.
@@ -316,14 +316,14 @@ Section Main.
         intros [u v] [u' v'] He He' E. apply Hgood in He, He'.
         destruct He as (Hle & Hu & Hv), He' as (Hle' & Hu' & Hv'). cbn [fst snd] in *.
         destruct (norm_pair_cases _ _ E) as [E'|E']; unfold fpair in E'; cbn [fst snd] in E'; inversion E' as [[E1 E2]].
-        * apply (lab_inj _ _ Hg) in E1; [|assumption|assumption]. apply (lab_inj _ _ Hg) in E2; [|assumption|assumption].
+        * apply (@lab_inj _ _ _ Hg) in E1; [|assumption|assumption]. apply (@lab_inj _ _ _ Hg) in E2; [|assumption|assumption].
           subst; reflexivity.
-        * apply (lab_inj _ _ Hg) in E1; [|assumption|assumption]. apply (lab_inj _ _ Hg) in E2; [|assumption|assumption].
+        * apply (@lab_inj _ _ _ Hg) in E1; [|assumption|assumption]. apply (@lab_inj _ _ _ Hg) in E2; [|assumption|assumption].
           subst. assert (u = v) by lia. subst; reflexivity.
       + apply dedup_pairs_NoDup.
       + intros p. rewrite in_map_iff. split.
         * intros (e & <- & He). apply dedup_pairs_In, in_map_iff in He. destruct He as ([x y] & <- & Hxy).
-          destruct (proj1 HR _ _ Hxy) as [Hx Hy]. rewrite (np1_lab _ _ Hg Hx Hy).
+          destruct (proj1 HR _ _ Hxy) as [Hx Hy]. rewrite (@np1_lab _ _ _ Hg Hx Hy).
           assert (Hadj : adj (tuples a) x y) by (left; exact Hxy).
           apply (se_tuples HE) in Hadj. apply dedup_pairs_In, in_map_iff. destruct Hadj as [Hadj|Hadj].
           -- exists (f x, f y). split; [reflexivity | exact Hadj].
@@ -332,10 +332,10 @@ Section Main.
           assert (Hadj : adj (tuples a') (f (g x')) (f (g y'))) by (rewrite !(rn_fg Hg); left; exact Hxy').
           apply (se_tuples HE) in Hadj. destruct Hadj as [Hadj|Hadj]; destruct (proj1 HR _ _ Hadj) as [H1 H2].
           -- exists (np1 (g x', g y')). split.
-             ++ rewrite (np1_lab _ _ Hg H1 H2), !(rn_fg Hg). reflexivity.
+             ++ rewrite (@np1_lab _ _ _ Hg H1 H2), !(rn_fg Hg). reflexivity.
              ++ apply dedup_pairs_In, in_map_iff. exists (g x', g y'). split; [reflexivity | exact Hadj].
           -- exists (np1 (g y', g x')). split.
-             ++ rewrite (np1_lab _ _ Hg H1 H2), !(rn_fg Hg). apply np1_swap.
+             ++ rewrite (@np1_lab _ _ _ Hg H1 H2), !(rn_fg Hg). apply np1_swap.
              ++ apply dedup_pairs_In, in_map_iff. exists (g y', g x'). split; [reflexivity | exact Hadj].
   Qed.
 End Main.
@@ -354,8 +354,670 @@ Proof.
   apply sem_accepts_value in Hs. subst g.
   destruct (semeq_same_molecule_core HE Hpos HL ND HI) as (HL' & ND' & HI' & Hpos' & HS).
   assert (Hacc' : exists g', sem a' = inr g') by (apply sem_accepts_iff; auto).
-  destruct Hacc' as (g' & Hs'). pose proof (sem_accepts_value _ _ Hs') as ->.
+  destruct Hacc' as (g' & Hs'). assert (Eg : g' = sem_mol a') by (apply sem_accepts_value; exact Hs'). subst g'.
   exists (sem_mol a'). split; [exact Hs'|]. split; [exact HS|].
   destruct HS as (_ & Ha & Hb). apply Permutation_length in Ha, Hb. rewrite !map_length in Ha, Hb.
-  repeat split; auto.
+  split; [symmetry; exact Ha|]. split; [symmetry; exact Hb | exact Hpos'].
 Qed.
+
+(* errors correspond as well, as soon as both trees have positive indices *)
+Lemma semeq_indices_exist f a a' : SemEq f a a' -> IndexPos a -> IndicesExist a -> IndicesExist a'.
+Proof.
+  intros HE Hpos HI. apply AllInRange_elim. apply (semeq_allinrange HE). apply AllInRange_intro; assumption.
+Qed.
+
+(* ====================================================================== *)
+(* 3. SemEq is an equivalence (identity, inverse, composition)             *)
+(* ====================================================================== *)
+Lemma Renumbering_id a : Renumbering a (fun i => i) (fun i => i).
+Proof. constructor; auto. Qed.
+
+Lemma SemEq_refl a : SemEq (fun i => i) a a.
+Proof.
+  constructor; try tauto; try reflexivity. exists (fun i => i). apply Renumbering_id.
+Qed.
+
+Lemma Renumbering_inverse_unique a f g g0 :
+  (forall i, g (f i) = i) -> (forall i, f (g i) = i) -> Renumbering a f g0 -> forall i, g i = g0 i.
+Proof.
+  intros Hgf Hfg H0 i. rewrite <- (Hfg i) at 2. rewrite (rn_gf H0). reflexivity.
+Qed.
+
+Lemma SemEq_sym f g a a' :
+  (forall i, g (f i) = i) -> (forall i, f (g i) = i) -> SemEq f a a' -> SemEq g a' a.
+Proof.
+  intros Hgf Hfg HE. destruct (se_renum HE) as (g0 & H0).
+  pose proof (@Renumbering_inverse_unique a f g g0 Hgf Hfg H0) as Eg.
+  assert (Hel : forall i, elem_at a' i = elem_at a i) by (intros i; unfold elem_at; rewrite (semeq_zs HE); reflexivity).
+  constructor.
+  - symmetry. apply (se_items HE).
+  - exists f. constructor; try assumption.
+    + intros i Hi. apply (semeq_range HE). apply (semeq_range HE) in Hi. rewrite Eg. apply (rn_range_inv H0), Hi.
+    + intros i Hi. apply (semeq_range HE). apply (semeq_range HE) in Hi. apply (rn_range H0), Hi.
+    + intros i Hi. apply (semeq_range HE) in Hi. rewrite !Hel.
+      assert (Hgi : in_range a (g i)) by (rewrite Eg; apply (rn_range_inv H0), Hi).
+      pose proof (@rn_elem _ _ _ H0 _ Hgi) as E. rewrite Hfg in E. symmetry. exact E.
+  - intros u v. rewrite (se_tuples HE (g u) (g v)), !Hfg. tauto.
+  - intros i. rewrite (se_bidx HE (g i)), Hfg. tauto.
+  - intros i k v. rewrite (se_props HE (g i) k v), Hfg. tauto.
+  - symmetry. apply (se_nodup HE).
+Qed.
+Lemma SemEq_sym_ex f a a' : SemEq f a a' -> exists g, SemEq g a' a.
+Proof.
+  intros HE. destruct (se_renum HE) as (g & Hg). exists g.
+  apply (@SemEq_sym f g a a' (rn_gf Hg) (rn_fg Hg) HE).
+Qed.
+
+Lemma SemEq_trans f1 f2 a b c : SemEq f1 a b -> SemEq f2 b c -> SemEq (fun i => f2 (f1 i)) a c.
+Proof.
+  intros H1 H2. destruct (se_renum H1) as (g1 & R1). destruct (se_renum H2) as (g2 & R2).
+  assert (Hel : forall i, elem_at b i = elem_at a i) by (intros i; unfold elem_at; rewrite (semeq_zs H1); reflexivity).
+  constructor.
+  - rewrite (se_items H2). apply (se_items H1).
+  - exists (fun i => g1 (g2 i)). constructor.
+    + intros i. rewrite (rn_gf R2), (rn_gf R1). reflexivity.
+    + intros i. rewrite (rn_fg R1), (rn_fg R2). reflexivity.
+    + intros i Hi. apply (semeq_range H1). apply (rn_range R2). apply (semeq_range H1). apply (rn_range R1), Hi.
+    + intros i Hi. apply (rn_range_inv R1). apply (semeq_range H1). apply (rn_range_inv R2). apply (semeq_range H1), Hi.
+    + intros i Hi. rewrite <- (@rn_elem _ _ _ R1 _ Hi), <- !Hel.
+      apply (@rn_elem _ _ _ R2). apply (semeq_range H1). apply (rn_range R1), Hi.
+  - intros u v. rewrite (se_tuples H1 u v). apply (se_tuples H2).
+  - intros i. rewrite (se_bidx H1 i). apply (se_bidx H2).
+  - intros i k v. rewrite (se_props H1 i k v). apply (se_props H2).
+  - rewrite (se_nodup H1). apply (se_nodup H2).
+Qed.
+
+(* the label maps compose and invert with the renumberings (on the labels that exist) *)
+Lemma lab_id l : lab (fun i => i) l = l.
+Proof. unfold lab. lia. Qed.
+
+Theorem semeq_errors f a a' : SemEq f a a' -> IndexPos a -> IndexPos a' ->
+  forall e, sem a = inl e <-> sem a' = inl e.
+Proof.
+  intros HE Hpos Hpos' e. destruct (SemEq_sym_ex HE) as (g & HE').
+  assert (HI : IndicesExist a <-> IndicesExist a').
+  { split; [apply (semeq_indices_exist HE Hpos) | apply (semeq_indices_exist HE' Hpos')]. }
+  pose proof (semeq_noselfloop HE) as HL. pose proof (se_nodup HE) as HD.
+  destruct (sem_errors_iff a) as (A1 & A2 & A3 & A4 & A5).
+  destruct (sem_errors_iff a') as (B1 & B2 & B3 & B4 & B5).
+  destruct e.
+  - split; intros H; [elim (A4 H) | elim (B4 H)].
+  - split; intros H; [elim (A5 H) | elim (B5 H)].
+  - rewrite A1, B1. clear - HL. tauto.
+  - rewrite A3, B3. clear - HL HD HI. tauto.
+  - rewrite A2, B2. clear - HL HD. tauto.
+Qed.
+
+(* ====================================================================== *)
+(* 4. the syntactic respellings are instances                              *)
+(* ====================================================================== *)
+Lemma semeq_id_intro a a' :
+  items a' = items a ->
+  (forall u v, adj (tuples a) u v <-> adj (tuples a') u v) ->
+  (forall i, In i (map fst (blocks a)) <-> In i (map fst (blocks a'))) ->
+  Permutation (flat_props (blocks a)) (flat_props (blocks a')) ->
+  SemEq (fun i => i) a a'.
+Proof.
+  intros Hit Ht Hb Hp. constructor; try assumption.
+  - exists (fun i => i). apply Renumbering_id.
+  - intros i k v. split; apply Permutation_in; [exact Hp | apply Permutation_sym, Hp].
+  - unfold NoDupAttr. pose proof (Permutation_map ikey Hp) as Hp'.
+    split; apply Permutation_NoDup; [exact Hp' | apply Permutation_sym, Hp'].
+Qed.
+
+Lemma adj_same_set ts ts' : (forall p, In p ts <-> In p ts') -> forall u v, adj ts u v <-> adj ts' u v.
+Proof. intros H u v. unfold adj. rewrite !H. tauto. Qed.
+
+Section Steps.
+  Variable it : list (N * Z).
+
+  (* --- tuples --- *)
+  Lemma respell_tuple_set ts ts' bs :
+    (forall u v, adj ts u v <-> adj ts' u v) -> SemEq (fun i => i) (mkAst it ts bs) (mkAst it ts' bs).
+  Proof.
+    intros H. apply semeq_id_intro; cbn [items tuples blocks]; [reflexivity | exact H | tauto | apply Permutation_refl].
+  Qed.
+
+  Lemma respell_tuple_order ts ts' bs :
+    Permutation ts ts' -> SemEq (fun i => i) (mkAst it ts bs) (mkAst it ts' bs).
+  Proof.
+    intros HP. apply respell_tuple_set, adj_same_set. intros p.
+    split; apply Permutation_in; [exact HP | apply Permutation_sym, HP].
+  Qed.
+
+  Lemma respell_tuple_swap l1 u v l2 bs :
+    SemEq (fun i => i) (mkAst it (l1 ++ (u, v) :: l2) bs) (mkAst it (l1 ++ (v, u) :: l2) bs).
+  Proof.
+    apply respell_tuple_set. intros x y. unfold adj. rewrite !in_app_iff. simpl.
+    split; intros [[H|[H|H]]|[H|[H|H]]]; try (inversion H; subst); auto 8.
+  Qed.
+
+  (* writing a tuple that is already there once more, anywhere *)
+  Lemma respell_tuple_repeat l1 l2 e bs :
+    In e (l1 ++ l2) -> SemEq (fun i => i) (mkAst it (l1 ++ l2) bs) (mkAst it (l1 ++ e :: l2) bs).
+  Proof.
+    intros He. apply respell_tuple_set, adj_same_set. intros p.
+    rewrite in_app_iff in He. rewrite !in_app_iff. simpl. split; [tauto|].
+    intros [H|[<-|H]]; tauto.
+  Qed.
+  (* ... and leaving out a repetition *)
+  Lemma respell_tuple_unrepeat l1 l2 e bs :
+    In e (l1 ++ l2) -> SemEq (fun i => i) (mkAst it (l1 ++ e :: l2) bs) (mkAst it (l1 ++ l2) bs).
+  Proof.
+    intros He. apply (@SemEq_sym (fun i => i) (fun i => i)); auto. apply respell_tuple_repeat, He.
+  Qed.
+
+  (* --- attribute blocks --- *)
+  Lemma respell_block_set ts bs bs' :
+    (forall i, In i (map fst bs) <-> In i (map fst bs')) ->
+    Permutation (flat_props bs) (flat_props bs') ->
+    SemEq (fun i => i) (mkAst it ts bs) (mkAst it ts bs').
+  Proof.
+    intros H1 H2. apply semeq_id_intro; cbn [items tuples blocks]; [reflexivity | tauto | exact H1 | exact H2].
+  Qed.
+
+  Lemma respell_block_order ts bs bs' :
+    Permutation bs bs' -> SemEq (fun i => i) (mkAst it ts bs) (mkAst it ts bs').
+  Proof.
+    intros HP. apply respell_block_set.
+    - pose proof (Permutation_map fst HP) as HP'. intros i.
+      split; apply Permutation_in; [exact HP' | apply Permutation_sym, HP'].
+    - unfold flat_props. apply Permutation_flat_map. exact HP.
+  Qed.
+
+  Lemma flat_props_split l1 (i : Z) ps qs l2 :
+    flat_props (l1 ++ (i, ps ++ qs) :: l2) = flat_props (l1 ++ (i, ps) :: (i, qs) :: l2).
+  Proof.
+    unfold flat_props. rewrite !flat_map_app. cbn [flat_map fst snd]. rewrite map_app, <- !app_assoc. reflexivity.
+  Qed.
+
+  Lemma respell_block_split ts l1 i ps qs l2 :
+    SemEq (fun i => i) (mkAst it ts (l1 ++ (i, ps ++ qs) :: l2)) (mkAst it ts (l1 ++ (i, ps) :: (i, qs) :: l2)).
+  Proof.
+    apply respell_block_set.
+    - intros j. rewrite !map_app, !in_app_iff. simpl. tauto.
+    - rewrite flat_props_split. apply Permutation_refl.
+  Qed.
+  Lemma respell_block_merge ts l1 i ps qs l2 :
+    SemEq (fun i => i) (mkAst it ts (l1 ++ (i, ps) :: (i, qs) :: l2)) (mkAst it ts (l1 ++ (i, ps ++ qs) :: l2)).
+  Proof.
+    apply (@SemEq_sym (fun i => i) (fun i => i)); auto. apply respell_block_split.
+  Qed.
+
+  Lemma respell_prop_order ts l1 i ps ps' l2 :
+    Permutation ps ps' ->
+    SemEq (fun i => i) (mkAst it ts (l1 ++ (i, ps) :: l2)) (mkAst it ts (l1 ++ (i, ps') :: l2)).
+  Proof.
+    intros HP. apply respell_block_set.
+    - intros j. rewrite !map_app, !in_app_iff. simpl. tauto.
+    - unfold flat_props. rewrite !flat_map_app. cbn [flat_map fst snd].
+      apply Permutation_app_head, Permutation_app_tail, Permutation_map, HP.
+  Qed.
+End Steps.
+
+(* --- renumbering the atoms inside the element blocks --- *)
+Definition renumber (f : Z -> Z) (a : ast) : ast :=
+  mkAst (items a)
+        (map (fun e => (f (fst e), f (snd e))) (tuples a))
+        (map (fun b => (f (fst b), snd b)) (blocks a)).
+
+Lemma flat_props_renumber (f : Z -> Z) bs :
+  flat_props (map (fun b => (f (fst b), snd b)) bs) = map (fun q => (f (fst q), snd q)) (flat_props bs).
+Proof.
+  unfold flat_props. induction bs as [|[i ps] t IH]; simpl; [reflexivity|].
+  rewrite IH, map_app, map_map. reflexivity.
+Qed.
+
+Lemma respell_renumber a f g : Renumbering a f g -> SemEq f a (renumber f a).
+Proof.
+  intros Hg.
+  assert (Hinj : forall x y, f x = f y -> x = y).
+  { intros x y E. apply (f_equal g) in E. rewrite !(rn_gf Hg) in E. exact E. }
+  constructor; unfold renumber; cbn [items tuples blocks].
+  - reflexivity.
+  - exists g. exact Hg.
+  - assert (H : forall u v, In (f u, f v) (map (fun e => (f (fst e), f (snd e))) (tuples a)) <-> In (u, v) (tuples a)).
+    { intros u v. rewrite in_map_iff. split.
+      - intros ([x y] & E & Hin). cbn [fst snd] in E. inversion E as [[E1 E2]].
+        apply Hinj in E1, E2. subst. exact Hin.
+      - intros Hin. exists (u, v). split; [reflexivity | exact Hin]. }
+    intros u v. unfold adj. rewrite !H. tauto.
+  - intros i. rewrite map_map. cbn [fst]. rewrite !in_map_iff. split.
+    + intros (b & E & Hin). exists b. split; [rewrite E; reflexivity | exact Hin].
+    + intros (b & E & Hin). exists b. split; [apply Hinj, E | exact Hin].
+  - intros i k v. rewrite flat_props_renumber, in_map_iff. split.
+    + intros Hin. exists (i, (k, v)). split; [reflexivity | exact Hin].
+    + intros ([j q] & E & Hin). cbn [fst snd] in E. inversion E as [[E1 E2]]. apply Hinj in E1. subst. exact Hin.
+  - unfold NoDupAttr. cbn [blocks]. rewrite flat_props_renumber, map_map.
+    replace (map (fun x : Z * (key * Z) => ikey (f (fst x), snd x)) (flat_props (blocks a)))
+      with (map (fun ik : Z * key => (f (fst ik), snd ik)) (map ikey (flat_props (blocks a))))
+      by (rewrite map_map; reflexivity).
+    split.
+    + apply NoDup_map_inj_in. intros [i k] [j k'] _ _ E. cbn [fst snd] in E. inversion E as [[E1 E2]].
+      apply Hinj in E1. subst; reflexivity.
+    + apply NoDup_map_inv.
+Qed.
+
+(* a permutation given on 1..n only, extended by the identity *)
+Definition extend (n : Z) (f : Z -> Z) (i : Z) : Z := if (1 <=? i) && (i <=? n) then f i else i.
+
+Lemma extend_in n f i : 1 <= i <= n -> extend n f i = f i.
+Proof. intros H. unfold extend. replace (1 <=? i) with true by lia. replace (i <=? n) with true by lia. reflexivity. Qed.
+Lemma extend_out n f i : ~ (1 <= i <= n) -> extend n f i = i.
+Proof.
+  intros H. unfold extend. destruct (1 <=? i) eqn:E1; [|reflexivity]. destruct (i <=? n) eqn:E2; [|reflexivity]. lia.
+Qed.
+
+Lemma extend_renumbering a f g :
+  (forall i, in_range a i -> in_range a (f i) /\ g (f i) = i) ->
+  (forall i, in_range a i -> in_range a (g i) /\ f (g i) = i) ->
+  (forall i, in_range a i -> elem_at a (f i) = elem_at a i) ->
+  Renumbering a (extend (n_atoms a) f) (extend (n_atoms a) g).
+Proof.
+  intros Hf Hg He. unfold in_range in *.
+  assert (dec : forall i, (1 <= i <= n_atoms a) \/ ~ (1 <= i <= n_atoms a)) by (intros; lia).
+  constructor.
+  - intros i. destruct (dec i) as [Hi|Hi].
+    + rewrite (extend_in f Hi). destruct (Hf i Hi) as [H1 H2]. rewrite (extend_in g H1). exact H2.
+    + rewrite (extend_out f Hi). apply (extend_out g Hi).
+  - intros i. destruct (dec i) as [Hi|Hi].
+    + rewrite (extend_in g Hi). destruct (Hg i Hi) as [H1 H2]. rewrite (extend_in f H1). exact H2.
+    + rewrite (extend_out g Hi). apply (extend_out f Hi).
+  - intros i Hi. rewrite (extend_in f Hi). apply Hf, Hi.
+  - intros i Hi. rewrite (extend_in g Hi). apply Hg, Hi.
+  - intros i Hi. rewrite (extend_in f Hi). apply He, Hi.
+Qed.
+
+(* on a tree whose indices all exist, only the values of f on 1..n matter *)
+Lemma renumber_extend a f : AllInRange a -> renumber (extend (n_atoms a) f) a = renumber f a.
+Proof.
+  intros [Ht Hb]. unfold renumber. f_equal.
+  - apply map_ext_in. intros [u v] Hin. destruct (Ht u v Hin) as [Hu Hv]. cbn [fst snd].
+    rewrite (extend_in f Hu), (extend_in f Hv). reflexivity.
+  - apply map_ext_in. intros [i ps] Hin. cbn [fst snd]. f_equal. apply extend_in.
+    apply Hb, in_fst_blocks. exists ps. exact Hin.
+Qed.
+
+Corollary respell_renumber_on_range a f g :
+  AllInRange a ->
+  (forall i, in_range a i -> in_range a (f i) /\ g (f i) = i) ->
+  (forall i, in_range a i -> in_range a (g i) /\ f (g i) = i) ->
+  (forall i, in_range a i -> elem_at a (f i) = elem_at a i) ->
+  SemEq (extend (n_atoms a) f) a (renumber f a).
+Proof.
+  intros HR Hf Hg He. rewrite <- (renumber_extend f HR).
+  apply respell_renumber with (g := extend (n_atoms a) g). apply extend_renumbering; assumption.
+Qed.
+
+(* ====================================================================== *)
+(* 5. any finite combination of respellings                                *)
+(* ====================================================================== *)
+Inductive Respell : ast -> ast -> Prop :=
+| Rs_refl a : Respell a a
+| Rs_trans a b c : Respell a b -> Respell b c -> Respell a c
+| Rs_tuple_order it ts ts' bs : Permutation ts ts' -> Respell (mkAst it ts bs) (mkAst it ts' bs)
+| Rs_tuple_swap it l1 u v l2 bs : Respell (mkAst it (l1 ++ (u, v) :: l2) bs) (mkAst it (l1 ++ (v, u) :: l2) bs)
+| Rs_tuple_repeat it l1 l2 e bs : In e (l1 ++ l2) -> Respell (mkAst it (l1 ++ l2) bs) (mkAst it (l1 ++ e :: l2) bs)
+| Rs_tuple_unrepeat it l1 l2 e bs : In e (l1 ++ l2) -> Respell (mkAst it (l1 ++ e :: l2) bs) (mkAst it (l1 ++ l2) bs)
+| Rs_block_order it ts bs bs' : Permutation bs bs' -> Respell (mkAst it ts bs) (mkAst it ts bs')
+| Rs_block_split it ts l1 i ps qs l2 :
+    Respell (mkAst it ts (l1 ++ (i, ps ++ qs) :: l2)) (mkAst it ts (l1 ++ (i, ps) :: (i, qs) :: l2))
+| Rs_block_merge it ts l1 i ps qs l2 :
+    Respell (mkAst it ts (l1 ++ (i, ps) :: (i, qs) :: l2)) (mkAst it ts (l1 ++ (i, ps ++ qs) :: l2))
+| Rs_prop_order it ts l1 i ps ps' l2 :
+    Permutation ps ps' -> Respell (mkAst it ts (l1 ++ (i, ps) :: l2)) (mkAst it ts (l1 ++ (i, ps') :: l2))
+| Rs_renumber a f g : Renumbering a f g -> Respell a (renumber f a).
+
+Theorem respell_semeq a a' : Respell a a' -> exists f, SemEq f a a'.
+Proof.
+  induction 1 as [a | a b c _ [f1 H1] _ [f2 H2] | | | | | | | | | a f g Hg].
+  - eexists. apply SemEq_refl.
+  - eexists. apply (SemEq_trans H1 H2).
+  - eexists. apply respell_tuple_order; assumption.
+  - eexists. apply respell_tuple_swap.
+  - eexists. apply respell_tuple_repeat; assumption.
+  - eexists. apply respell_tuple_unrepeat; assumption.
+  - eexists. apply respell_block_order; assumption.
+  - eexists. apply respell_block_split.
+  - eexists. apply respell_block_merge.
+  - eexists. apply respell_prop_order; assumption.
+  - exists f. apply (respell_renumber Hg).
+Qed.
+
+Theorem respell_same_molecule a a' g :
+  Respell a a' -> IndexPos a -> sem a = inr g ->
+  exists g' F, sem a' = inr g' /\ SameMol F g g' /\
+               length (atoms g') = length (atoms g) /\ length (bonds g') = length (bonds g).
+Proof.
+  intros HR Hpos Hs. destruct (respell_semeq HR) as (f & HE).
+  destruct (semeq_same_molecule HE Hpos Hs) as (g' & Hs' & HS & Ha & Hb & _).
+  exists g', (lab f). auto.
+Qed.
+
+(* the closure is symmetric: every step can be undone by a step *)
+Lemma renumber_renumber f g a : (forall i, g (f i) = i) -> renumber g (renumber f a) = a.
+Proof.
+  intros Hgf. destruct a as [it ts bs]. unfold renumber; cbn [items tuples blocks]. f_equal.
+  - rewrite map_map. rewrite <- (map_id ts) at 2. apply map_ext. intros [u v]. cbn [fst snd]. rewrite !Hgf. reflexivity.
+  - rewrite map_map. rewrite <- (map_id bs) at 2. apply map_ext. intros [i ps]. cbn [fst snd]. rewrite Hgf. reflexivity.
+Qed.
+Lemma Renumbering_inv a f g : Renumbering a f g -> Renumbering (renumber f a) g f.
+Proof.
+  intros Hg. constructor.
+  - apply (rn_fg Hg).
+  - apply (rn_gf Hg).
+  - apply (rn_range_inv Hg).
+  - apply (rn_range Hg).
+  - intros i Hi. change (elem_at a (g i) = elem_at a i).
+    assert (Hgi : in_range a (g i)) by (apply (rn_range_inv Hg); exact Hi).
+    pose proof (@rn_elem _ _ _ Hg _ Hgi) as E. rewrite (rn_fg Hg) in E. symmetry. exact E.
+Qed.
+Theorem Respell_sym a a' : Respell a a' -> Respell a' a.
+Proof.
+  induction 1 as [a | a b c _ IH1 _ IH2 | | | | | | | | | a f g Hg].
+  - apply Rs_refl.
+  - apply (Rs_trans IH2 IH1).
+  - apply Rs_tuple_order, Permutation_sym; assumption.
+  - apply Rs_tuple_swap.
+  - apply Rs_tuple_unrepeat; assumption.
+  - apply Rs_tuple_repeat; assumption.
+  - apply Rs_block_order, Permutation_sym; assumption.
+  - apply Rs_block_merge.
+  - apply Rs_block_split.
+  - apply Rs_prop_order, Permutation_sym; assumption.
+  - pose proof (Rs_renumber (Renumbering_inv Hg)) as H.
+    rewrite (@renumber_renumber f g a (rn_gf Hg)) in H. exact H.
+Qed.
+
+(* ====================================================================== *)
+(* 6. down to the string: respelled trees give the same TUCAN string       *)
+(* ====================================================================== *)
+Lemma sem_mol_label_in a l : in_range a (Z.of_N l + 1) -> In l (labels (sem_mol a)).
+Proof.
+  intros Hl. unfold labels. apply in_map_iff. exists (atom_of a l). split; [reflexivity|].
+  apply sem_mol_atoms_In. exists l. split; [exact Hl | reflexivity].
+Qed.
+
+Lemma sem_mol_wfg a : IndexPos a -> NoSelfLoop a -> IndicesExist a -> wfg (sem_mol a).
+Proof.
+  intros Hpos HL HI. pose proof (AllInRange_intro Hpos HI) as [Ht _]. split.
+  - rewrite sem_mol_labels. apply Nseq_NoDup.
+  - intros b Hb. rewrite sem_mol_bonds in Hb. apply in_map_iff in Hb. destruct Hb as (e & <- & He).
+    apply dedup_pairs_In, in_map_iff in He. destruct He as ([x y] & <- & Hxy).
+    destruct (Ht _ _ Hxy) as [Hx Hy]. pose proof (HL _ _ Hxy) as Hne.
+    destruct (np1_good Hx Hy) as (_ & H1 & H2). unfold ends. cbn [fst snd].
+    split; [|split; apply sem_mol_label_in; assumption].
+    unfold np1, norm_pair, in_range in *. cbn [fst snd].
+    destruct (N.leb (Z.to_N (x - 1)) (Z.to_N (y - 1))); cbn [fst snd]; lia.
+Qed.
+
+Lemma sem_mol_nozero a x : ast_wf a -> NoDupAttr a -> In x (atoms (sem_mol a)) ->
+  mass x <> Some 0 /\ rad x <> Some 0.
+Proof.
+  intros Hwf ND Hx. apply sem_mol_atoms_In in Hx. destruct Hx as (l & _ & ->). unfold atom_of. cbn [mass rad].
+  split; intros E; apply (find_prop_In _ _ _ _ ND) in E; apply flat_props_In in E; destruct E as (ps & Hb & Hp);
+    destruct (wf_blocks Hwf _ _ Hb) as (_ & _ & Hv); apply Hv in Hp; lia.
+Qed.
+
+Require Import Canon Pipeline CanonProofs CanonView TucanProofs.
+
+Section ToString.
+  Variable canon : list (N * N) -> list (N * N) -> list (N * N).
+  Hypothesis HH1 : H1 canon.
+  Hypothesis HH2 : H2 canon.
+
+  (* C11 for trees: SemEq-related trees of sentences are both rejected by `sem`, or both accepted
+     with graphs that canonicalize and serialize to the same string *)
+  Theorem semeq_same_tucan f a a' g :
+    SemEq f a a' -> ast_wf a -> sem a = inr g ->
+    exists g', sem a' = inr g' /\ tucan canon g = tucan canon g' /\ tucan_tokens canon g = tucan_tokens canon g'.
+  Proof.
+    intros HE Hwf Hs. pose proof (ast_wf_IndexPos Hwf) as Hpos.
+    destruct (semeq_same_molecule HE Hpos Hs) as (g' & Hs' & HS & _).
+    assert (Hacc : exists g, sem a = inr g) by eauto.
+    apply sem_accepts_iff in Hacc. destruct Hacc as (HL & ND & HI).
+    assert (Eg : g = sem_mol a) by (apply sem_accepts_value; exact Hs). subst g.
+    pose proof (sem_mol_wfg Hpos HL HI) as Hw.
+    assert (Hnz : forall x, In x (atoms (sem_mol a)) -> nozero x).
+    { intros x Hx. apply (@sem_mol_nozero a x Hwf ND Hx). }
+    exists g'. split; [exact Hs'|]. split.
+    - apply (tucan_invariant canon HH1 HH2 (lab f) (sem_mol a) g' Hw HS Hnz).
+    - apply (tucan_tokens_invariant canon HH1 HH2 (lab f) (sem_mol a) g' Hw HS Hnz).
+  Qed.
+
+  Theorem respell_same_tucan a a' g :
+    Respell a a' -> ast_wf a -> sem a = inr g ->
+    exists g', sem a' = inr g' /\ tucan canon g = tucan canon g' /\ tucan_tokens canon g = tucan_tokens canon g'.
+  Proof.
+    intros HR Hwf Hs. destruct (respell_semeq HR) as (f & HE). apply (semeq_same_tucan HE Hwf Hs).
+  Qed.
+End ToString.
+
+(* ====================================================================== *)
+(* 7. a renumbering given as an injective map of 1..n into itself          *)
+(* ====================================================================== *)
+Definition range_list (n : Z) : list Z := map Z.of_nat (seq 1 (Z.to_nat n)).
+Lemma range_list_In n i : In i (range_list n) <-> 1 <= i <= n.
+Proof.
+  unfold range_list. rewrite in_map_iff. split.
+  - intros (k & <- & Hk). apply in_seq in Hk. lia.
+  - intros H. exists (Z.to_nat i). split; [lia|]. apply in_seq. lia.
+Qed.
+Lemma range_list_NoDup n : NoDup (range_list n).
+Proof. apply NoDup_map_inj_in; [intros; lia | apply seq_NoDup]. Qed.
+
+Definition inverse_on (n : Z) (f : Z -> Z) (j : Z) : Z :=
+  match find (fun i => Z.eqb (f i) j) (range_list n) with Some i => i | None => j end.
+
+Lemma inverse_on_spec n f :
+  (forall i, 1 <= i <= n -> 1 <= f i <= n) ->
+  (forall i j, 1 <= i <= n -> 1 <= j <= n -> f i = f j -> i = j) ->
+  (forall i, 1 <= i <= n -> inverse_on n f (f i) = i) /\
+  (forall j, 1 <= j <= n -> 1 <= inverse_on n f j <= n /\ f (inverse_on n f j) = j).
+Proof.
+  intros Hr Hinj.
+  assert (Hsurj : forall j, 1 <= j <= n -> exists i, 1 <= i <= n /\ f i = j).
+  { assert (Hincl : incl (range_list n) (map f (range_list n))).
+    { apply NoDup_length_incl.
+      - apply NoDup_map_inj_in; [|apply range_list_NoDup].
+        intros x y Hx Hy. apply Hinj; apply range_list_In; assumption.
+      - rewrite map_length. lia.
+      - intros y Hy. apply in_map_iff in Hy. destruct Hy as (x & <- & Hx).
+        apply range_list_In, Hr, range_list_In, Hx. }
+    intros j Hj. apply range_list_In, Hincl, in_map_iff in Hj. destruct Hj as (i & E & Hi).
+    exists i. split; [apply range_list_In, Hi | exact E]. }
+  assert (Hfind : forall j, 1 <= j <= n ->
+            exists i, find (fun i => Z.eqb (f i) j) (range_list n) = Some i /\ 1 <= i <= n /\ f i = j).
+  { intros j Hj. destruct (find (fun i => Z.eqb (f i) j) (range_list n)) as [i|] eqn:E.
+    - apply find_some in E. destruct E as [Hi E]. apply Z.eqb_eq in E.
+      exists i. split; [reflexivity|]. split; [apply range_list_In, Hi | exact E].
+    - destruct (Hsurj j Hj) as (i & Hi & Ei).
+      pose proof (find_none _ _ E i (proj2 (range_list_In n i) Hi)) as H. simpl in H.
+      rewrite Ei, Z.eqb_refl in H. discriminate. }
+  split.
+  - intros i Hi. unfold inverse_on. destruct (Hfind (f i) (Hr i Hi)) as (k & -> & Hk & Ek). apply Hinj; assumption.
+  - intros j Hj. unfold inverse_on. destruct (Hfind j Hj) as (k & -> & Hk & Ek). split; assumption.
+Qed.
+
+Corollary respell_renumber_inj a f :
+  AllInRange a ->
+  (forall i, in_range a i -> in_range a (f i)) ->
+  (forall i j, in_range a i -> in_range a j -> f i = f j -> i = j) ->
+  (forall i, in_range a i -> elem_at a (f i) = elem_at a i) ->
+  SemEq (extend (n_atoms a) f) a (renumber f a).
+Proof.
+  intros HR Hr Hinj He. destruct (@inverse_on_spec (n_atoms a) f Hr Hinj) as [G1 G2].
+  apply respell_renumber_on_range with (g := inverse_on (n_atoms a) f); try assumption.
+  intros i Hi. split; [apply Hr, Hi | apply G1, Hi].
+Qed.
+
+(* ====================================================================== *)
+(* 8. non-vacuity: two spellings of ethanol                                *)
+(* ====================================================================== *)
+(* a decision procedure for "the same tuple set up to direction" *)
+Definition pair_mem (e : Z * Z) (l : list (Z * Z)) : bool :=
+  existsb (fun p => Z.eqb (fst p) (fst e) && Z.eqb (snd p) (snd e)) l.
+Definition adjb (ts : list (Z * Z)) (u v : Z) : bool := pair_mem (u, v) ts || pair_mem (v, u) ts.
+Definition same_adjb (ts ts' : list (Z * Z)) : bool :=
+  forallb (fun e => adjb ts' (fst e) (snd e)) ts && forallb (fun e => adjb ts (fst e) (snd e)) ts'.
+
+Lemma pair_mem_In e l : pair_mem e l = true <-> In e l.
+Proof.
+  destruct e as [u v]. unfold pair_mem. rewrite existsb_exists. cbn [fst snd]. split.
+  - intros ([x y] & Hin & E). cbn [fst snd] in E. apply andb_true_iff in E. destruct E as [E1 E2].
+    apply Z.eqb_eq in E1, E2. subst. exact Hin.
+  - intros Hin. exists (u, v). split; [exact Hin|]. cbn [fst snd]. rewrite !Z.eqb_refl. reflexivity.
+Qed.
+Lemma adjb_spec ts u v : adjb ts u v = true <-> adj ts u v.
+Proof. unfold adjb, adj. rewrite orb_true_iff, !pair_mem_In. tauto. Qed.
+Lemma same_adjb_sound ts ts' : same_adjb ts ts' = true -> forall u v, adj ts u v <-> adj ts' u v.
+Proof.
+  unfold same_adjb. rewrite andb_true_iff, !forallb_forall. intros [H1 H2] u v.
+  split; intros [H|H].
+  - apply H1 in H. apply adjb_spec in H. exact H.
+  - apply H1 in H. apply adjb_spec, adj_sym in H. exact H.
+  - apply H2 in H. apply adjb_spec in H. exact H.
+  - apply H2 in H. apply adjb_spec, adj_sym in H. exact H.
+Qed.
+
+(* C2H6O/(1-7)(2-7)(3-7)(4-8)(5-8)(6-9)(7-8)(8-9)/(1:mass=2)(9:mass=18) : atoms 1-6 H, 7-8 C, 9 O *)
+Definition eth1 : ast :=
+  mkAst [(6%N, 2); (1%N, 6); (8%N, 1)]
+        [(1, 7); (2, 7); (3, 7); (4, 8); (5, 8); (6, 9); (7, 8); (8, 9)]
+        [(1, [(KMass, 2)]); (9, [(KMass, 18)])].
+(* hydrogens renumbered 1<->6, 2<->3; tuples in reverse order, each written backwards; blocks swapped *)
+Definition eth_f (i : Z) : Z := match i with 1 => 6 | 6 => 1 | 2 => 3 | 3 => 2 | _ => i end.
+Definition eth2 : ast :=
+  mkAst [(6%N, 2); (1%N, 6); (8%N, 1)]
+        [(9, 8); (8, 7); (9, 1); (8, 5); (8, 4); (7, 2); (7, 3); (7, 6)]
+        [(9, [(KMass, 18)]); (6, [(KMass, 2)])].
+
+Example eth1_sem : sem eth1 = inr (sem_mol eth1).
+Proof. vm_compute. reflexivity. Qed.
+Example eth2_sem : sem eth2 = inr (sem_mol eth2).
+Proof. vm_compute. reflexivity. Qed.
+Example eth_graphs_differ : sem_mol eth1 <> sem_mol eth2.
+Proof. vm_compute. discriminate. Qed.
+
+Example eth1_wf : ast_wf eth1.
+Proof.
+  constructor; unfold eth1; cbn [items tuples blocks]; simpl In.
+  - intros z c H. repeat (destruct H as [H|H]; [inversion H; subst; lia|]). contradiction.
+  - intros u v H. repeat (destruct H as [H|H]; [inversion H; subst; lia|]). contradiction.
+  - intros i ps H. repeat (destruct H as [H|H]; [inversion H; subst; (split; [lia|]); (split; [discriminate|]);
+      intros k v Hv; simpl in Hv; repeat (destruct Hv as [Hv|Hv]; [inversion Hv; subst; lia|]); contradiction|]).
+    contradiction.
+Qed.
+
+Example eth_renumbering : Renumbering eth1 eth_f eth_f.
+Proof.
+  assert (Hinv : forall i, eth_f (eth_f i) = i).
+  { intros i. destruct i as [|p|p]; try reflexivity.
+    destruct p as [p|p|]; try reflexivity; destruct p as [p|p|]; try reflexivity;
+      destruct p as [p|p|]; try reflexivity; destruct p as [p|p|]; reflexivity. }
+  assert (Hcases : forall i, in_range eth1 i -> i = 1 \/ i = 2 \/ i = 3 \/ i = 4 \/ i = 5 \/ i = 6 \/ i = 7 \/ i = 8 \/ i = 9).
+  { intros i Hi. unfold in_range in Hi. change (n_atoms eth1) with 9 in Hi. lia. }
+  constructor; try exact Hinv.
+  - intros i Hi. apply Hcases in Hi. unfold in_range. change (n_atoms eth1) with 9.
+    repeat (destruct Hi as [->|Hi]; [simpl; lia|]). subst i. simpl. lia.
+  - intros i Hi. apply Hcases in Hi. unfold in_range. change (n_atoms eth1) with 9.
+    repeat (destruct Hi as [->|Hi]; [simpl; lia|]). subst i. simpl. lia.
+  - intros i Hi. apply Hcases in Hi.
+    repeat (destruct Hi as [->|Hi]; [reflexivity|]). subst i. reflexivity.
+Qed.
+
+Example eth_semeq : SemEq eth_f eth1 eth2.
+Proof.
+  assert (S1 : SemEq eth_f eth1 (renumber eth_f eth1)) by (apply (respell_renumber eth_renumbering)).
+  assert (S2 : SemEq (fun i => i) (renumber eth_f eth1) eth2).
+  { apply semeq_id_intro.
+    - reflexivity.
+    - apply same_adjb_sound. vm_compute. reflexivity.
+    - intros i. simpl. tauto.
+    - simpl. apply perm_swap. }
+  exact (SemEq_trans S1 S2).
+Qed.
+
+(* the same pair of spellings, reached by the named respelling steps *)
+Example eth_respell : Respell eth1 eth2.
+Proof.
+  eapply Rs_trans; [apply (Rs_renumber eth_renumbering)|].
+  unfold renumber, eth1, eth2; cbn [items tuples blocks map fst snd eth_f].
+  eapply Rs_trans; [apply Rs_block_order, perm_swap|].
+  eapply Rs_trans; [apply Rs_tuple_order, Permutation_rev|]. cbn [rev app].
+  eapply Rs_trans; [apply (Rs_tuple_swap _ [] 8 9)|].
+  eapply Rs_trans; [apply (Rs_tuple_swap _ [_] 7 8)|].
+  eapply Rs_trans; [apply (Rs_tuple_swap _ [_; _] 1 9)|].
+  eapply Rs_trans; [apply (Rs_tuple_swap _ [_; _; _] 5 8)|].
+  eapply Rs_trans; [apply (Rs_tuple_swap _ [_; _; _; _] 4 8)|].
+  eapply Rs_trans; [apply (Rs_tuple_swap _ [_; _; _; _; _] 2 7)|].
+  eapply Rs_trans; [apply (Rs_tuple_swap _ [_; _; _; _; _; _] 3 7)|].
+  apply (Rs_tuple_swap _ [_; _; _; _; _; _; _] 6 7 []).
+Qed.
+
+(* the theorem applied: the two graphs differ, and are related by the induced label map *)
+Example eth_same_molecule :
+  SameMol (lab eth_f) (sem_mol eth1) (sem_mol eth2) /\
+  length (atoms (sem_mol eth2)) = 9%nat /\ length (bonds (sem_mol eth2)) = 8%nat.
+Proof.
+  destruct (semeq_same_molecule eth_semeq (ast_wf_IndexPos eth1_wf) eth1_sem) as (g' & Hs & HS & _).
+  rewrite eth2_sem in Hs. inversion Hs; subst g'. split; [exact HS|]. split; reflexivity.
+Qed.
+
+(* a respelling that is not meaning preserving is not a SemEq: dropping a bond *)
+Example eth_not_semeq f :
+  ~ SemEq f eth1 (mkAst (items eth1) [(1, 7); (2, 7); (3, 7); (4, 8); (5, 8); (6, 9); (7, 8)] (blocks eth1)).
+Proof.
+  intros HE.
+  destruct (semeq_same_molecule HE (ast_wf_IndexPos eth1_wf) eth1_sem) as (g' & Hs & _ & _ & Hb & _).
+  vm_compute in Hs. inversion Hs; subst g'. vm_compute in Hb. discriminate.
+Qed.
+
+(* the same statements for a tree given as a whole *)
+Corollary respell_tuple_order_ast a ts' :
+  Permutation (tuples a) ts' -> SemEq (fun i => i) a (mkAst (items a) ts' (blocks a)).
+Proof. destruct a as [it ts bs]. apply respell_tuple_order. Qed.
+Corollary respell_block_order_ast a bs' :
+  Permutation (blocks a) bs' -> SemEq (fun i => i) a (mkAst (items a) (tuples a) bs').
+Proof. destruct a as [it ts bs]. apply respell_block_order. Qed.
+
+(* the hypothesis IndexPos (guaranteed by the grammar: node_index ::= greater_than_zero) cannot be
+   dropped: `sem` does not reject the index 0 and reads it as atom 1 *)
+Definition h2_f (i : Z) : Z := match i with 1 => 2 | 2 => 1 | _ => i end.
+Definition h2_bad : ast := mkAst [(1%N, 2)] [(0, 2)] [].
+Example indexpos_needed :
+  SemEq h2_f h2_bad (renumber h2_f h2_bad) /\
+  sem h2_bad = inr (sem_mol h2_bad) /\ sem (renumber h2_f h2_bad) = inr (sem_mol (renumber h2_f h2_bad)) /\
+  ~ SameMol (lab h2_f) (sem_mol h2_bad) (sem_mol (renumber h2_f h2_bad)).
+Proof.
+  split; [|split; [vm_compute; reflexivity | split; [vm_compute; reflexivity|]]].
+  - apply respell_renumber with (g := h2_f).
+    assert (Hinv : forall i, h2_f (h2_f i) = i).
+    { intros i. destruct i as [|p|p]; try reflexivity.
+      destruct p as [p|p|]; try reflexivity; destruct p as [p|p|]; reflexivity. }
+    assert (Hcases : forall i, in_range h2_bad i -> i = 1 \/ i = 2).
+    { intros i Hi. unfold in_range in Hi. change (n_atoms h2_bad) with 2 in Hi. lia. }
+    constructor; try exact Hinv.
+    + intros i Hi. apply Hcases in Hi. unfold in_range. change (n_atoms h2_bad) with 2.
+      destruct Hi as [->| ->]; simpl; lia.
+    + intros i Hi. apply Hcases in Hi. unfold in_range. change (n_atoms h2_bad) with 2.
+      destruct Hi as [->| ->]; simpl; lia.
+    + intros i Hi. apply Hcases in Hi. destruct Hi as [->| ->]; reflexivity.
+  - intros (_ & _ & Hb). vm_compute in Hb. apply Permutation_length_1_inv in Hb. discriminate.
+Qed.
+
+Print Assumptions semeq_same_molecule.
+Print Assumptions semeq_errors.
+Print Assumptions SemEq_sym.
+Print Assumptions SemEq_trans.
+Print Assumptions respell_renumber.
+Print Assumptions respell_renumber_inj.
+Print Assumptions respell_semeq.
+Print Assumptions respell_same_molecule.
+Print Assumptions Respell_sym.
+Print Assumptions semeq_same_tucan.
+Print Assumptions respell_same_tucan.
+Print Assumptions eth_same_molecule.
+Print Assumptions eth_respell.
+Print Assumptions eth_not_semeq.
+Print Assumptions indexpos_needed.
